@@ -43,6 +43,10 @@ type spX struct {
 	Un     bool     `json:"un"`
 	Bx     bool     `json:"bx"`
 	Voice  string   `json:"voice"`
+	Title  string   `json:"title"` // document metadata: ttml title lang fr copy | ssa title | stl title lang fr
+	Lang   string   `json:"lang"`  // Metadata.Language value ("" | english | french)
+	Fr     int      `json:"fr"`    // 0 | 25 | 30
+	Copy   string   `json:"copy"`
 }
 
 type spCase struct {
@@ -78,6 +82,15 @@ type spLook struct {
 	Cue   spSA   `json:"cue"`
 	Run   spSA   `json:"run"`
 	Voice string `json:"voice"` // VoiceName of the first line
+	Meta  spMeta `json:"meta"`
+}
+
+// spMeta: the format-neutral part of Metadata (zero values when Metadata is nil)
+type spMeta struct {
+	Title string `json:"title"`
+	Lang  string `json:"lang"`
+	Fr    int    `json:"fr"`
+	Copy  string `json:"copy"`
 }
 
 type spEvent struct {
@@ -144,11 +157,33 @@ func spSource(src string, x spX) ([]byte, error) {
 		if x.Col != "" {
 			s = ` tts:color="` + x.Col + `"`
 		}
+		tt, head := "", ""
+		if x.Lang != "" {
+			tt += ` xml:lang="` + map[string]string{"english": "en", "french": "fr"}[x.Lang] + `"`
+		}
+		if x.Fr != 0 {
+			tt += fmt.Sprintf(` ttp:frameRate="%d"`, x.Fr)
+		}
+		if x.Title != "" || x.Copy != "" {
+			head = "<head><metadata>"
+			if x.Copy != "" {
+				head += "<ttm:copyright>" + x.Copy + "</ttm:copyright>"
+			}
+			if x.Title != "" {
+				head += "<ttm:title>" + x.Title + "</ttm:title>"
+			}
+			head += "</metadata></head>"
+		}
 		return []byte(`<?xml version="1.0" encoding="UTF-8"?>` + "\n" +
-			`<tt xmlns="http://www.w3.org/ns/ttml" xmlns:tts="http://www.w3.org/ns/ttml#styling"><body><div>` +
+			`<tt xmlns="http://www.w3.org/ns/ttml" xmlns:tts="http://www.w3.org/ns/ttml#styling" xmlns:ttm="http://www.w3.org/ns/ttml#metadata" ` +
+			`xmlns:ttp="http://www.w3.org/ns/ttml#parameter"` + tt + `>` + head + `<body><div>` +
 			`<p begin="00:00:01.000" end="00:00:03.000"` + p + `><span` + s + `>` + spText + `</span></p></div></body></tt>`), nil
 	case "ssa":
-		return []byte("[Script Info]\nScriptType: v4.00\n\n[V4 Styles]\nFormat: Name, Fontname, Fontsize\nStyle: Default,Arial,20\n\n" +
+		title := ""
+		if x.Title != "" {
+			title = "Title: " + x.Title + "\n"
+		}
+		return []byte("[Script Info]\n" + title + "ScriptType: v4.00\n\n[V4 Styles]\nFormat: Name, Fontname, Fontsize\nStyle: Default,Arial,20\n\n" +
 			"[Events]\nFormat: Marked, Start, End, Style, Name, MarginL, MarginR, MarginV, Effect, Text\n" +
 			"Dialogue: Marked=0,0:00:01.00,0:00:03.00,Default," + x.Voice + ",0,0,0,," + spText + "\n"), nil
 	case "stl":
@@ -165,7 +200,18 @@ func spSource(src string, x spX) ([]byte, error) {
 		for _, c := range []byte(spText) {
 			tf = append(tf, int(c))
 		}
-		d := stlx.Doc{Fps: 25, Dsc: x.Dsc, Meta: map[string]int{"mnr": x.Mnr, "mnc": 40},
+		meta := map[string]int{"mnr": x.Mnr, "mnc": 40}
+		if x.Title != "" {
+			meta["opt"] = 1 // "My programme"
+		}
+		if x.Lang != "" {
+			meta["lang"] = map[string]int{"english": 2, "french": 3}[x.Lang]
+		}
+		fps := 25
+		if x.Fr == 30 {
+			fps = 30
+		}
+		d := stlx.Doc{Fps: fps, Dsc: x.Dsc, Meta: meta,
 			Ttis: []stlx.TTI{{Ebn: 255, Tci: [4]int{0, 0, 1, 0}, Tco: [4]int{0, 0, 3, 0}, Vp: x.Vp, Jc: x.Jc, Tf: tf}}}
 		return stlx.Pack(d), nil
 	}
@@ -259,6 +305,9 @@ func spObserve(sa *astisub.StyleAttributes) spSA {
 
 func spLookOf(s *astisub.Subtitles) spLook {
 	l := spLook{Cue: spObserve(nil), Run: spObserve(nil)}
+	if s != nil && s.Metadata != nil {
+		l.Meta = spMeta{Title: s.Metadata.Title, Lang: s.Metadata.Language, Fr: s.Metadata.Framerate, Copy: s.Metadata.TTMLCopyright}
+	}
 	if s == nil || len(s.Items) == 0 || s.Items[0] == nil {
 		return l
 	}
